@@ -528,8 +528,18 @@ def run_real(cls, d, ku, ii, compact):
             return ("raise", E.exn_name(ex), str(ex)[:160])
 
 
+def effective_ku(c, ku, ctx):
+    """Deserializer.deserialize: an explicit keep_undefined is used as it is; the default (None) means "keep" exactly
+    when the target class FORBIDS additional properties (theorem C06_keep_undefined_adjustment) -- and whatever it
+    is, it holds for every nested structure of the document alike"""
+    if ku is None:
+        return not ctx.resolved(c["name"])["additional"]
+    return bool(ku)
+
+
 def run_spec(c, d, ctx, ku, ii, compact):
     """("ok", instance, notes) | ("raise", class name, message, notes)"""
+    ku = effective_ku(c, ku, ctx)
     notes = Notes()
     with flags(ii, compact):
         try:
@@ -735,6 +745,48 @@ def lattice_cases(rnd, tier, ext):
     return ctx, cases
 
 
+# ------------------------------------------------------------------ the nesting lattice
+
+def nesting_cases(tier):
+    """deterministic enumeration: a structure nested at every kind of position (directly, as a Map value, below two
+    Maps, in an Array / Deque / Set / Tuple / positional Array, as a wrapper alternative, and their combinations) x the
+    nested class allows / forbids additional properties x the top class allows / forbids them x documents with keys
+    that are not fields at no / the top / the nested / both levels x keep_undefined in {True, False, default} x the
+    configuration flag.  The flag must reach every nested structure alike: the oracle reads the document with one
+    keep_undefined at every level."""
+    ctx = SG.SerContext([])
+    cases = []
+    idx = 0
+    for inner_add in (True, False):
+        for top_add in (True, False):
+            for pi in range(len(G6.nest_positions("X"))):
+                idx += 1
+                prefix = "Q%d" % idx
+                pos_name, _, _ = G6.nest_positions("X")[pi]
+                try:
+                    asts = G6.nest_classes(prefix, inner_add, top_add, pos_name,
+                                           lambda n, pi=pi: G6.nest_positions(n)[pi][1])
+                    for a in asts:
+                        ctx.add(a)
+                except Exception:  # noqa   declaration rejected by typedpy
+                    continue
+                mk = G6.nest_positions(prefix + "N")[pi][2]
+                c = asts[-1]
+                for iname, objs in G6.NEST_INNER_DOCS:
+                    for top_extra in (False, True):
+                        doc = {"f": mk(copy.deepcopy(objs)), "s": {"k": 1}, "g": copy.deepcopy(objs[0])}
+                        if top_extra:
+                            doc["zz_top"] = 1
+                        for ku in (True, False, None):
+                            for ii in (True, False):
+                                if tier == "quick" and ii is False and ku is True and not inner_add and iname == "no-extra":
+                                    continue
+                                cases.append({"c": c, "doc": doc, "label": "nesting/" + pos_name,
+                                              "kind": "%s%s" % (iname, "+top" if top_extra else ""),
+                                              "ku": ku, "ii": ii, "compact": False, "inst": None, "inj": None})
+    return ctx, cases
+
+
 # ------------------------------------------------------------------ the check
 
 def run(rep, tier):
@@ -756,6 +808,15 @@ def run(rep, tier):
     lctx, lcases = lattice_cases(rnd3, tier, ext=False)
     judge(rep, "lattice", lctx, lcases)
     worlds.append(("lattice", lctx, lcases))
+    # 3b. the nesting lattice: keys that are not fields at every level x keep_undefined in {True, False, default}
+    nctx, ncases = nesting_cases(tier)
+    judge(rep, "nesting", nctx, ncases)
+    worlds.append(("nesting", nctx, ncases))
+    n_kept = sum(1 for k in ncases if k["real"][0] == "ok" and "extra" in k["kind"] and not k["kind"].startswith("no-extra"))
+    rep.obligation("generator:nesting-extras-accepted", n_kept >= 300,
+                   "%d accepted documents with a key that is not a field inside a nested structure" % n_kept)
+    if n_kept < 300:
+        rep.broken("generator:nesting-extras-accepted", "only %d accepted nesting documents with nested extras: inconclusive" % n_kept)
     # 4. fields outside the Coq model: random world + lattice, oracle only
     rnd4 = random.Random(core.seed() * 1000003 + 608)
     xctx, xpools = G6.build_xworld(rnd4, 60 if quick else 240, max_depth=2 if quick else 3)
